@@ -42,6 +42,28 @@ theorem login_key_fails (h : o.m_Done = true) (hu : (userinfo o).1 = none) (c : 
   simp [IdentityProvider_loginResponse, IdentityProvider_loginResponse.body, Ctl.toRes, h, hu, hk, statusInvalidAttr, idp, deref,
     Res.isPanic, Res.get]
 
+/-- `createSignature`, redirect delivery, signing succeeded: signature and algorithm are put into the response -/
+theorem createSignature_redirect_ok (r : samlp_ResponseType) (k : Option KeyRec) (c : Lib.Bytes) (alg sig a : String)
+    (hb1 : resp.ProtocolBinding = "urn:oasis:names:tc:SAML:2.0:bindings:HTTP-Redirect") (hb2 : resp.AcsUrl ≠ "")
+    (hs : o.f_createRedirectSignature (some r) k c alg resp.RelayState = (sig, a, none)) :
+    createSignature o (some resp) (some r) k c alg = .ok (none, some { resp with Signature := sig, SigAlg := a }) := by
+  simp [createSignature, createSignature.body, Ctl.toRes, deref, hb1, hb2, hs]
+
+/-- … signing failed: the error wraps the signer's, the response is untouched -/
+theorem createSignature_redirect_err (r : samlp_ResponseType) (k : Option KeyRec) (c : Lib.Bytes) (alg sig a e : String)
+    (hb1 : resp.ProtocolBinding = "urn:oasis:names:tc:SAML:2.0:bindings:HTTP-Redirect") (hb2 : resp.AcsUrl ≠ "")
+    (hs : o.f_createRedirectSignature (some r) k c alg resp.RelayState = (sig, a, some e)) :
+    createSignature o (some resp) (some r) k c alg = .ok (some ("failed to sign response: " ++ e), some resp) := by
+  simp [createSignature, createSignature.body, Ctl.toRes, deref, hb1, hb2, hs]
+
+/-- any other delivery: the enveloped signature, the response untouched -/
+theorem createSignature_post (r : samlp_ResponseType) (k : Option KeyRec) (c : Lib.Bytes) (alg : String)
+    (hb : ¬(resp.ProtocolBinding = "urn:oasis:names:tc:SAML:2.0:bindings:HTTP-Redirect" ∧ ¬resp.AcsUrl = "")) :
+    createSignature o (some resp) (some r) k c alg =
+      .ok ((o.f_createPostSignature (some r) k c alg).map ("failed to sign response: " ++ ·), some resp) := by
+  cases hs : o.f_createPostSignature (some r) k c alg <;>
+  simp [createSignature, createSignature.body, Ctl.toRes, deref, hb, hs]
+
 /-- the response `createSignature` hands back: with the query-string signature fields set for a redirect delivery -/
 def signedResp (sig alg : String) : provider_Response := { resp with Signature := sig, SigAlg := alg }
 
@@ -69,20 +91,20 @@ theorem login_positive (h : o.m_Done = true) (hu : (userinfo o).1 = none) (attrs
     rcases hs : o.f_createRedirectSignature (some r) k c cfg.SignatureAlgorithm resp.RelayState with ⟨sig, alg, e⟩
     cases e with
     | none =>
-      simp [IdentityProvider_loginResponse, IdentityProvider_loginResponse.body, createSignature, createSignature.body, Ctl.toRes, h, hu, ha, hk,
-        hr, idp, deref, Res.isPanic, Res.get, hb1', hb2, hs, signedResp]
+      simp [IdentityProvider_loginResponse, IdentityProvider_loginResponse.body, createSignature_redirect_ok o resp r k c _ sig alg hb1' hb2 hs,
+        Ctl.toRes, h, hu, ha, hk, hr, idp, deref, Res.isPanic, Res.get, signedResp]
     | some e =>
-      simp [IdentityProvider_loginResponse, IdentityProvider_loginResponse.body, createSignature, createSignature.body, Ctl.toRes, h, hu, ha, hk,
-        hr, idp, deref, Res.isPanic, Res.get, hb1', hb2, hs, statusResponder]
+      simp [IdentityProvider_loginResponse, IdentityProvider_loginResponse.body, createSignature_redirect_err o resp r k c _ sig alg e hb1' hb2 hs,
+        Ctl.toRes, h, hu, ha, hk, hr, idp, deref, Res.isPanic, Res.get, statusResponder]
   · rw [if_neg hb]
     have hcond : ¬(resp.ProtocolBinding = "urn:oasis:names:tc:SAML:2.0:bindings:HTTP-Redirect" ∧ ¬resp.AcsUrl = "") := hb
     cases hs : o.f_createPostSignature (some r) k c cfg.SignatureAlgorithm with
     | none =>
-      simp [IdentityProvider_loginResponse, IdentityProvider_loginResponse.body, createSignature, createSignature.body, Ctl.toRes, h, hu, ha, hk,
-        hr, idp, deref, Res.isPanic, Res.get, hcond, hs]
+      simp [IdentityProvider_loginResponse, IdentityProvider_loginResponse.body, createSignature_post o resp r k c _ hcond,
+        Ctl.toRes, h, hu, ha, hk, hr, idp, deref, Res.isPanic, Res.get, hs]
     | some e =>
-      simp [IdentityProvider_loginResponse, IdentityProvider_loginResponse.body, createSignature, createSignature.body, Ctl.toRes, h, hu, ha, hk,
-        hr, idp, deref, Res.isPanic, Res.get, hcond, hs, statusResponder]
+      simp [IdentityProvider_loginResponse, IdentityProvider_loginResponse.body, createSignature_post o resp r k c _ hcond,
+        Ctl.toRes, h, hu, ha, hk, hr, idp, deref, Res.isPanic, Res.get, hs, statusResponder]
 
 
 /-! ### The callback model, fed from the same oracles -/
